@@ -707,3 +707,154 @@ Theorem source_shapes :
   int_cmp_threeway = true /\ float_cmp_shape_ok = true /\ seq_cmp_shape_ok = true /\ tree_cmp_shape_ok = true /\
   cmp_predicates_shape_ok = true /\ cmp_default_shape_ok = true.
 Proof. repeat split. Qed.
+
+(* ================================================================== a Tree keyed through cmp finds its keys *)
+Section TreeLookup.
+  Variable s : sort.
+  Notation D := (dom s).
+
+  Lemma ord_anti : forall a b, D a -> D b -> value_ord b a = CompOpp (value_ord a b).
+  Proof. intros a b Da Db. apply (ok_anti _ _ _ _ (value_ok a s Da) b Db). Qed.
+
+  Lemma ord_eq_l : forall a b c, D a -> D b -> D c -> value_ord a b = Eq -> value_ord a c = value_ord b c.
+  Proof. intros a b c Da Db Dc. apply (ok_eq _ _ _ _ (value_ok a s Da) b c Db Dc). Qed.
+
+  Lemma ord_eq_r : forall a b c, D a -> D b -> D c -> value_ord a b = Eq -> value_ord c a = value_ord c b.
+  Proof.
+    intros a b c Da Db Dc E. rewrite (ord_anti a c Da Dc), (ord_anti b c Db Dc).
+    rewrite (ord_eq_l a b c Da Db Dc E). reflexivity.
+  Qed.
+
+  Lemma ord_gt_trans : forall a b c, D a -> D b -> D c -> value_ord a b = Gt -> value_ord b c = Gt -> value_ord a c = Gt.
+  Proof.
+    intros a b c Da Db Dc H1 H2.
+    assert (L1 : value_ord c b = Lt) by (rewrite (ord_anti b c Db Dc), H2; reflexivity).
+    assert (L2 : value_ord b a = Lt) by (rewrite (ord_anti a b Da Db), H1; reflexivity).
+    assert (L3 : value_ord c a = Lt).
+    { apply (ok_trans _ _ _ _ (value_ok c s Dc) b a Db Da L1). rewrite L2. discriminate. }
+    rewrite (ord_anti c a Dc Da), L3. reflexivity.
+  Qed.
+
+  (* first binding whose key is order-equal *)
+  Fixpoint ord_find (t : list (value * value)) (k : value) : option value :=
+    match t with
+    | [] => None
+    | (k', v') :: r => match value_ord k k' with Eq => Some v' | _ => ord_find r k end
+    end.
+
+  Definition keys_in (t : list (value * value)) : Prop := Forall (fun kv => D (fst kv)) t.
+  Definition below (k : value) (t : list (value * value)) : Prop := Forall (fun kv => value_ord k (fst kv) = Gt) t.
+  Fixpoint desc (t : list (value * value)) : Prop :=
+    match t with
+    | [] => True
+    | (k, _) :: r => below k r /\ desc r
+    end.
+
+  Lemma below_find : forall t k, below k t -> ord_find t k = None.
+  Proof.
+    induction t as [|[k' v'] r IH]; intros k B; simpl; [reflexivity|].
+    inversion B as [|? ? B1 B2]; subst. simpl in B1. rewrite B1. apply IH, B2.
+  Qed.
+
+  Lemma below_trans : forall t k k', D k -> D k' -> keys_in t -> value_ord k k' = Gt -> below k' t -> below k t.
+  Proof.
+    induction t as [|[k2 v2] r IH]; intros k k' Dk Dk' K G B; constructor;
+      inversion B as [|? ? B1 B2]; inversion K as [|? ? K1 K2]; subst; simpl in *.
+    - apply (ord_gt_trans k k' k2); assumption.
+    - apply (IH k k'); assumption.
+  Qed.
+
+  Lemma assoc_get_find : forall t k, keys_in t -> desc t -> D k -> assoc_get t k = Some (ord_find t k).
+  Proof.
+    induction t as [|[k' v'] r IH]; intros k K S Dk; simpl; [reflexivity|].
+    inversion K as [|? ? K1 K2]; subst; simpl in K1. destruct S as [B S].
+    rewrite (value_cmp_is_order k s k' Dk K1).
+    destruct (value_ord k k') eqn:C; simpl.
+    - reflexivity.
+    - apply IH; assumption.
+    - rewrite (below_find r k); [reflexivity|]. apply (below_trans r k k'); assumption.
+  Qed.
+
+  Lemma assoc_set_spec : forall t k v, keys_in t -> desc t -> D k ->
+    exists t', assoc_set t k v = Some t' /\ keys_in t' /\ desc t' /\
+      (forall k0, D k0 -> below k0 t -> value_ord k0 k = Gt -> below k0 t') /\
+      (forall k2, D k2 -> ord_find t' k2 = match value_ord k2 k with Eq => Some v | _ => ord_find t k2 end).
+  Proof.
+    induction t as [|[k' v'] r IH]; intros k v K S Dk; simpl.
+    - exists [(k, v)]. split; [reflexivity|]. split; [|split; [|split]].
+      + constructor; [exact Dk|constructor].
+      + simpl. split; [constructor|exact I].
+      + intros k0 _ _ G. constructor; [exact G|constructor].
+      + intros k2 _. simpl. destruct (value_ord k2 k); reflexivity.
+    - inversion K as [|? ? K1 K2]; subst; simpl in K1. destruct S as [B S].
+      rewrite (value_cmp_is_order k s k' Dk K1).
+      destruct (value_ord k k') eqn:C; simpl.
+      + exists ((k', v) :: r). split; [reflexivity|]. split; [|split; [|split]].
+        * constructor; [exact K1|exact K2].
+        * simpl. split; assumption.
+        * intros k0 D0 B0 G. inversion B0; subst. constructor; assumption.
+        * intros k2 D2. simpl. rewrite (ord_eq_r k k' k2 Dk K1 D2 C). destruct (value_ord k2 k'); reflexivity.
+      + destruct (IH k v K2 S Dk) as (r' & E & K' & S' & BB & F). rewrite E.
+        exists ((k', v') :: r'). split; [reflexivity|]. split; [|split; [|split]].
+        * constructor; [exact K1|exact K'].
+        * simpl. split; [|exact S']. apply BB; auto. rewrite (ord_anti k k' Dk K1), C. reflexivity.
+        * intros k0 D0 B0 G. inversion B0; subst. constructor; [assumption|]. apply BB; assumption.
+        * intros k2 D2. simpl. rewrite (F k2 D2).
+          destruct (value_ord k2 k') eqn:C2; try reflexivity.
+          destruct (value_ord k2 k) eqn:C3; try reflexivity.
+          exfalso.
+          assert (value_ord k k' = Eq).
+          { rewrite <- (ord_eq_l k2 k k' D2 Dk K1 C3). exact C2. }
+          congruence.
+      + exists ((k, v) :: (k', v') :: r). split; [reflexivity|]. split; [|split; [|split]].
+        * constructor; [exact Dk|exact K].
+        * simpl. split; [|split; assumption]. constructor; [exact C|]. apply (below_trans r k k'); assumption.
+        * intros k0 D0 B0 G. constructor; assumption.
+        * intros k2 D2. reflexivity.
+  Qed.
+
+  Lemma tree_of_sets_spec : forall ins t, keys_in ins -> keys_in t -> desc t ->
+    exists t', tree_of_sets t ins = Some t' /\ keys_in t' /\ desc t' /\
+      (forall k, D k -> ord_find t' k = match spec_get ins k with Some v => Some v | None => ord_find t k end).
+  Proof.
+    induction ins as [|[k v] r IH]; intros t KI K S; simpl.
+    - exists t. repeat split; auto.
+    - inversion KI as [|? ? KI1 KI2]; subst; simpl in KI1.
+      destruct (assoc_set_spec t k v K S KI1) as (t1 & E & K1 & S1 & _ & F1). rewrite E.
+      destruct (IH t1 KI2 K1 S1) as (t2 & E2 & K2 & S2 & F2).
+      exists t2. repeat split; auto.
+      intros k2 D2. rewrite (F2 k2 D2). destruct (spec_get r k2); [reflexivity|].
+      rewrite (F1 k2 D2). destruct (value_ord k2 k); reflexivity.
+  Qed.
+
+  (* every key set into a Tree keyed through the modelled cmp is found again, with the value of the
+     last set under an order-equal key; absent keys are reported absent *)
+  Theorem tree_finds_keys : forall ins, keys_in ins ->
+    exists t, tree_of_sets [] ins = Some t /\
+      forall k, D k -> assoc_get t k = Some (spec_get ins k).
+  Proof.
+    intros ins KI.
+    destruct (tree_of_sets_spec ins [] KI (Forall_nil _) I) as (t & E & K & S & F).
+    exists t. split; [exact E|]. intros k Dk.
+    rewrite (assoc_get_find t k K S Dk), (F k Dk). simpl. destruct (spec_get ins k); reflexivity.
+  Qed.
+
+  (* a Table finds a key through eq(stored key, key): same answer (probing/hashing: C02, C10) *)
+  Theorem eq_get_spec : forall ins k, keys_in ins -> D k -> eq_get ins k = Some (spec_get ins k).
+  Proof.
+    induction ins as [|[k' v'] r IH]; intros k KI Dk; simpl; [reflexivity|].
+    inversion KI as [|? ? K1 K2]; subst; simpl in K1.
+    rewrite (IH k K2 Dk). destruct (spec_get r k); [reflexivity|].
+    unfold v_eq. rewrite (value_cmp_is_order k' s k K1 Dk). simpl.
+    rewrite (ord_anti k k' Dk K1). destruct (value_ord k k'); reflexivity.
+  Qed.
+End TreeLookup.
+
+Theorem keyed_lookups : forall s ins, Forall (fun kv : value * value => dom s (fst kv)) ins ->
+  (exists t, tree_of_sets [] ins = Some t /\ forall k, dom s k -> assoc_get t k = Some (spec_get ins k)) /\
+  (forall k, dom s k -> eq_get ins k = Some (spec_get ins k)).
+Proof.
+  intros s ins KI. split.
+  - apply (tree_finds_keys s ins KI).
+  - intros k Dk. apply (eq_get_spec s ins k KI Dk).
+Qed.
